@@ -8,13 +8,19 @@ Init == s = <<>>
 \* RepChoices / OwnChoices are sets of category sets; {} as a repeat choice means `repeat` without categories
 AddM(o, r, cs, st, sk) == Len(s) < MaxLen /\ (~r => cs = {}) /\ s' = Append(s, [own |-> o, rep |-> r, cats |-> cs, stop |-> st, skip |-> sk])
 AddT(n, o, r, cs, st, sk) == Len(s) < MaxLen /\ (~r => cs = {}) /\ ~(st /\ sk /\ ~r) /\ s' = Append(s, [n |-> n, own |-> o, rep |-> r, cats |-> cs, stop |-> st, skip |-> sk])
-Next == IF Mode = "member"
+\* enum payload fields: `nv` starts a new variant (the first field always does); at most MaxLen fields in all
+AddV(nv, o, r, cs, pm, st, sk) == /\ Len(s) < MaxLen /\ (~r => cs = {} /\ ~pm) /\ (s = <<>> => nv)
+                                  /\ s' = Append(s, [v |-> (IF s = <<>> THEN 1 ELSE s[Len(s)].v + (IF nv THEN 1 ELSE 0)), own |-> o, rep |-> r, cats |-> cs, perm |-> pm, stop |-> st, skip |-> sk])
+Next == IF Mode = "vfield"
+        THEN \E nv \in BOOLEAN, o \in OwnChoices, r \in BOOLEAN, cs \in RepChoices, pm \in BOOLEAN, st \in BOOLEAN, sk \in BOOLEAN : AddV(nv, o, r, cs, pm, st, sk)
+        ELSE IF Mode = "member"
         THEN \E o \in OwnChoices, r \in BOOLEAN, cs \in RepChoices, st \in BOOLEAN, sk \in BOOLEAN : AddM(o, r, cs, st, sk)
         ELSE \E n \in TNames, o \in OwnChoices, r \in BOOLEAN, cs \in RepChoices, st \in BOOLEAN, sk \in BOOLEAN : AddT(n, o, r, cs, st, sk)
 Spec == Init /\ [][Next]_s
 Pairs(S) == {[c |-> x[1], t |-> x[2]] : x \in S}
 EmitM == PrintT(<<"CASE", ToJson([ms |-> s, conflict |-> Conflict(s), eff |-> [j \in DOMAIN s |-> Pairs(Eff(s, j))]])>>)
 EmitT == PrintT(<<"CASE", ToJson([ts |-> s, conflict |-> TConflict(s), eff |-> [j \in DOMAIN s |-> Pairs(TEff(s, j))]])>>)
-Emit == s # <<>> => IF Mode = "member" THEN EmitM ELSE EmitT
-FoldOk == IF Mode = "member" THEN FoldRefinesRequirement(s) ELSE TFoldRefinesRequirement(s, TNames)
+EmitV == PrintT(<<"CASE", ToJson([fs |-> s, conflict |-> VConflict(s), eff |-> [j \in DOMAIN s |-> Pairs(VEff(s, j))]])>>)
+Emit == s # <<>> => IF Mode = "member" THEN EmitM ELSE IF Mode = "vfield" THEN EmitV ELSE EmitT
+FoldOk == IF Mode = "member" THEN FoldRefinesRequirement(s) ELSE IF Mode = "vfield" THEN VFoldRefinesRequirement(s) ELSE TFoldRefinesRequirement(s, TNames)
 =============================================================================
